@@ -584,9 +584,18 @@ func (tr *Tr) nilMapFacts(st *State, mt *types.Map, m string) {
 		return
 	}
 	tr.typeFactDone[key] = true
+	if strings.Contains(m, "(ite ") && tr.specMode == 0 {
+		// patterns must not contain ite: name the map reference
+		sym := tr.freshSym("mref", false)
+		tr.sc.factLocal(sEq(sym, m))
+		m = sym
+	}
 	tr.sc.fact(fmt.Sprintf("(=> (= %s 0) (and (= %s 0) (forall ((k Int)) (! (not (select (select %s %s) k)) :pattern ((select (select %s %s) k))))))",
 		m, sSel(tr.mapLen(st, mt), m), tr.mapDom(st, mt), m, tr.mapDom(st, mt), m))
 	tr.sc.fact(fmt.Sprintf("(and (<= 0 %s) (<= %s 2147483648))", sSel(tr.mapLen(st, mt), m), sSel(tr.mapLen(st, mt), m)))
+	// len is the number of keys: an empty map has no key (the general relation to counts is A-count)
+	tr.sc.fact(fmt.Sprintf("(=> (= %s 0) (forall ((k Int)) (! (not (select (select %s %s) k)) :pattern ((select (select %s %s) k)))))",
+		sSel(tr.mapLen(st, mt), m), tr.mapDom(st, mt), m, tr.mapDom(st, mt), m))
 }
 
 // markMapKinds records what the value heaps of a map type hold, so that heap-version axioms cover map values too.
